@@ -8,6 +8,10 @@ fragment it knows -- *mechanically and faithfully*:
 
   * `x = Enum(x).value`                 -> `if not (x == v1 or x == v2 ...): raise ValueError()`   (values read
                                            from the current `enum.py`)
+                                           -- only faithful if nothing reads `x` before that statement (the
+                                           caller may pass the enum MEMBER, which equals no int / str): a read of an
+                                           enum-valued argument above its normalisation, other than `x is None`,
+                                           is outside the fragment (`check_enum_args_normalised_first`)
   * `NAME = {a, b}` / `A.union(B)`       -> recorded literal collections (statement dropped)
   * `x in C`, `x not in C`               -> disjunction of equalities over the recorded / literal collection
   * `NAME = {k: v, ...}[key]`            -> `if not (key == k1 or ...): raise KeyError()` + recorded selection;
@@ -256,6 +260,49 @@ class Pre:
         return [st]
 
 
+ENUM_ARGS = ('pixel_representation', 'photometric_interpretation', 'planar_configuration')
+
+
+def check_enum_args_normalised_first(body, names=ENUM_ARGS):
+    """The model holds an enum-valued argument as its VALUE (int / str) from the first statement on; the function may be
+    handed the enum MEMBER, for which `x == 1` is False until `x = XValues(x).value` has run.  The rewrite of that
+    statement into a validity check is therefore only faithful if nothing reads `x` before it -- other than `x is None`.
+    Anything else (e.g. `is_signed = pixel_representation == 1` above the normalisation) is outside the fragment."""
+    mod = ast.Module(body=list(body), type_ignores=[])
+    parents = {}
+    for n in ast.walk(mod):
+        for c in ast.iter_child_nodes(n):
+            parents[c] = n
+    for name in names:
+        def is_norm(n):
+            # x = XValues(x).value   or   x = XValues(x) / XNames(x)  (member kept, `.value` read later)
+            if not (isinstance(n, ast.Assign) and len(n.targets) == 1 and isinstance(n.targets[0], ast.Name)
+                    and n.targets[0].id == name):
+                return False
+            v = n.value
+            if isinstance(v, ast.Attribute) and v.attr == 'value':
+                v = v.value
+            return isinstance(v, ast.Call) and isinstance(v.func, ast.Name) and v.func.id.endswith(('Values', 'Names')) \
+                and len(v.args) == 1 and ast.unparse(v.args[0]) == name
+        norm = [n for n in ast.walk(mod) if is_norm(n)]
+        loads = [n for n in ast.walk(mod) if isinstance(n, ast.Name) and n.id == name and isinstance(n.ctx, ast.Load)]
+        if not loads:
+            continue
+        if not norm:
+            raise Unsupported(f'enum-valued argument {name} is used but never normalised through its enum')
+        first = min(n.lineno for n in norm)
+        for n in loads:
+            if n.lineno >= first:
+                continue
+            par = parents.get(n)
+            if isinstance(par, ast.Compare) and len(par.ops) == 1 and isinstance(par.ops[0], (ast.Is, ast.IsNot)) \
+                    and isinstance(par.comparators[0], ast.Constant) and par.comparators[0].value is None:
+                continue
+            raise Unsupported(f'enum-valued argument {name} is read (line {n.lineno}: '
+                              f'{ast.unparse(parents.get(n, n))[:60]}) before it is normalised through its enum '
+                              f'(line {first}): an enum member would be compared as if it were its value')
+
+
 def _fix(stmts):
     mod = ast.Module(body=stmts, type_ignores=[])
     ast.fix_missing_locations(mod)
@@ -284,6 +331,7 @@ def build_T13a(tree):
         if p not in have:
             raise Unsupported(f'parameter {p} no longer in encode_frame')
     body = strip_doc(fn.body)
+    check_enum_args_normalised_first(body)
     pre = Pre(_repo_src(), ROUTES_ENC, drop_targets={'kwargs', 'array', 'encoder'})
     pre.handoff = ['rows', 'cols', 'samples_per_pixel', 'bits_allocated', 'bits_stored', 'pixel_representation']
     stmts = _fix(pre.stmts(body))
@@ -325,6 +373,7 @@ def build_T13c(tree):
         if p not in have:
             raise Unsupported(f'parameter {p} no longer in decode_frame')
     body = strip_doc(fn.body)
+    check_enum_args_normalised_first(body)
     # first statement: is_encapsulated = UID(transfer_syntax_uid).is_encapsulated
     first = body[0]
     if not (isinstance(first, ast.Assign) and ast.unparse(first.targets[0]) == 'is_encapsulated'
